@@ -167,11 +167,33 @@ def extract_region(path, fn_name, impl_of, from_anchor, to_anchor, from_nth=0, t
     if len(hits) <= from_nth:
         raise ExtractError("region start anchor %r (occurrence %d) not found in %s" % (from_anchor, from_nth, fn_name))
     i0 = hits[from_nth]
-    hits2 = [i for i, l in enumerate(lines) if i >= i0 and _m(to_anchor, l)]
-    if len(hits2) <= to_nth:
-        raise ExtractError("region end anchor %r (occurrence %d) not found after the start anchor in %s" % (to_anchor, to_nth, fn_name))
-    i1 = hits2[to_nth]
-    if to_exclusive:
+    if to_anchor == "$block_end":
+        # the region runs to the end of the block in which its first line sits: up to the line before the
+        # line holding the brace that closes that block
+        d = 0
+        i1 = None
+        for i in range(i0, len(lines)):
+            for t in code_tokens(lines[i]):
+                if t.kind == "punct" and t.text in OPEN:
+                    d += 1
+                elif t.kind == "punct" and t.text in CLOSE:
+                    d -= 1
+                    if d < 0:
+                        i1 = i - 1
+                        break
+            if i1 is not None:
+                break
+        if i1 is None:
+            raise ExtractError("region from %r: enclosing block does not close inside %s" % (from_anchor, fn_name))
+        while i1 > i0 and lines[i1].strip() == "":
+            i1 -= 1
+        hits2 = None
+    else:
+        hits2 = [i for i, l in enumerate(lines) if i >= i0 and _m(to_anchor, l)]
+        if len(hits2) <= to_nth:
+            raise ExtractError("region end anchor %r (occurrence %d) not found after the start anchor in %s" % (to_anchor, to_nth, fn_name))
+        i1 = hits2[to_nth]
+    if to_exclusive and hits2 is not None:
         i1 -= 1
         while i1 > i0 and lines[i1].strip() == "":
             i1 -= 1
